@@ -38,6 +38,8 @@ pub enum Pattern {
     Trickle { above: bool },
     /// part of the CONNECT, then nothing (connect timeout 1 s)
     ConnectStall,
+    /// the CONNECT trickles in, a few bytes every 0.6 s (each gap below the connect timeout of 1 s, the whole far above it)
+    ConnectTrickle,
     /// client role, keep-alive k, idle: PINGREQ expected on the wire
     ClientIdle(u16),
     /// the same with the send window (1) taken by a QoS 1 publish the peer does not acknowledge
@@ -117,7 +119,7 @@ async fn run_conn(c: Case) -> Verdict {
         cfg.v3.frame_read_rate = Some((1, 4, 16));
         cfg.v5.frame_read_rate = Some((1, 4, 16));
     }
-    if c.pattern == Pattern::ConnectStall {
+    if matches!(c.pattern, Pattern::ConnectStall | Pattern::ConnectTrickle) {
         cfg.v3.connect_timeout = 1;
         cfg.v5.connect_timeout = 1;
     }
@@ -142,6 +144,35 @@ async fn run_conn(c: Case) -> Verdict {
     let slip_limit = Duration::from_millis(300);
 
     // ---- connect phase pattern
+    if c.pattern == Pattern::ConnectTrickle {
+        let connect = if v5 { P5::Connect(Box::new(cfg.v5.connect.clone())) } else { crate::bed::any::up(&P3::Connect(Box::new(cfg.v3.connect.clone()))) };
+        let bytes = eut.encode(&connect, &[]);
+        // 6 pieces 0.6 s apart: the last one would arrive at 3.0 s
+        let step = bytes.len().div_ceil(6);
+        let mut sent = 0usize;
+        let mut end_at = None;
+        for i in 0..36u32 {
+            if i % 6 == 0 && sent < bytes.len() && end_at.is_none() {
+                let n = step.min(bytes.len() - sent);
+                eut.peer().send(&bytes[sent..sent + n]);
+                sent += n;
+            }
+            max_slip = max_slip.max(sleep_until(t0, TICK * (i + 1)).await);
+            if ended(&eut) && end_at.is_none() {
+                end_at = Some(t0.elapsed());
+                break;
+            }
+        }
+        if max_slip > slip_limit {
+            return Verdict::Inconclusive(format!("driver slipped {max_slip:?}"));
+        }
+        let handled = eut.app().events().iter().any(|e| matches!(e, Ev::Handshake | Ev::PubEnter { .. }));
+        return match end_at {
+            Some(t) if t >= Duration::from_millis(400) && t <= Duration::from_millis(3300) && !handled => Verdict::Ok(CaseInfo::nontrivial(&c).label("connect-timeout-trickle")),
+            Some(t) => Verdict::Fail(fail(&c, "connect-timeout-early", format!("dropped after {t:?} (connect timeout 1 s), handshake ran: {handled}"))),
+            None => Verdict::Fail(Failure::new("connect-timeout-missing", format!("C20/{}/connect-timeout-missing", c.role.name()), format!("a CONNECT trickling in over 3 s (a piece every 0.6 s) with connect timeout 1 s: the peer was not dropped, handshake ran: {handled}; case {c:?}"))),
+        };
+    }
     if c.pattern == Pattern::ConnectStall {
         let connect = if v5 { P5::Connect(Box::new(cfg.v5.connect.clone())) } else { crate::bed::any::up(&P3::Connect(Box::new(cfg.v3.connect.clone()))) };
         let bytes = eut.encode(&connect, &[]);
@@ -416,7 +447,7 @@ async fn run_conn(c: Case) -> Verdict {
                 _ => "client-keep-alive",
             }))
         }
-        Pattern::ConnectStall => unreachable!(),
+        Pattern::ConnectStall | Pattern::ConnectTrickle => unreachable!(),
     }
 }
 
@@ -449,6 +480,7 @@ pub fn all_cases(thorough: bool) -> Vec<Case> {
         out.push(Case { role, source: Source::Client(10), pattern: Pattern::Trickle { above: true } });
         out.push(Case { role, source: Source::Client(10), pattern: Pattern::Trickle { above: false } });
         out.push(Case { role, source: Source::Client(10), pattern: Pattern::ConnectStall });
+        out.push(Case { role, source: Source::Client(10), pattern: Pattern::ConnectTrickle });
         if role == Role::V3Server {
             out.push(Case { role, source: Source::Disabled, pattern: Pattern::Dead { n: 1, gap: 5 } });
             out.push(Case { role, source: Source::Disabled, pattern: Pattern::Dead { n: 0, gap: 5 } });
@@ -551,7 +583,7 @@ pub fn run(ctx: &Ctx, started: Instant) -> i32 {
         rule: format!(
             "{total} connections in real time (several repetitions at staggered phases of the 1 s timer wheel), all concurrent: keep-alive source {{client value 1/2 (thorough 3) s -> idle period k + k/2; handshake override idle_timeout / keep_alive 1/2 (3) s; v3 idle_timeout(0) = disabled}} x \
              {{dead peer: 0..2 complete packets 0.5 s or T-0.5 s apart, then silence -> ended within [T-0.6 s, T+2.2 s] after the last complete packet with a keep-alive timeout (v5: DISCONNECT 0x8D); live peer: a complete packet every 0.5 s or T-1.0 s for three periods, whole or in two writes 0.2 s apart -> never ended; the same peer while a publish handler is busy for the three periods with the receive limits reached (reading paused) -> never ended, everything answered afterwards}}; \
-             frame read rate 1 s / 16 bytes / max 4 s: partial frame then stall and 8 bytes/s trickle -> read timeout, 80 bytes/s -> frame handled, no timeout; half a CONNECT against connect timeout 1 s -> dropped within 3.5 s, no handshake; disabled keep-alive -> still open after 4.5 s; \
+             frame read rate 1 s / 16 bytes / max 4 s: partial frame then stall and 8 bytes/s trickle -> read timeout, 80 bytes/s -> frame handled, no timeout; half a CONNECT against connect timeout 1 s -> dropped within 3.5 s, no handshake; a CONNECT trickling in over 3 s, a piece every 0.6 s -> dropped as well (the timeout covers the whole CONNECT); disabled keep-alive -> still open after 4.5 s; \
              client role keep-alive 1/2 s idle (also with the send window of 1 taken by an unacknowledged publish) -> a PINGREQ in every window of k+1.2 s. A case whose driver woke up more than 0.3 s late is run again with fewer connections at once (up to three more rounds; {inconclusive} left without a verdict this run). Non-trivial = every pattern (each has a decisive gap or partial frame); distinct = (role, source, pattern)"
         ),
         exhaustive: false,
